@@ -43,6 +43,8 @@ def bounds(tier):
 
 def jobs(tier, seed):
     out = [dict(name="model-vs-real-orbax", kind="model", devices=1, cost=50), dict(name="f0-no-directory", kind="f0", devices=1, cost=5)]
+    for solver in ("vi", "pi", "rvi", "pvi", "savi"):
+        out.append(dict(name=f"nonfinite-{solver}", kind="nonfinite", solver=solver, devices=1, seed=seed, cost=20))
     seqs = [[3], [2, 2], [2, "same", 2], [1, "new", 3]] if tier == "quick" else \
         [[1], [2], [3], [1, 1], [2, 2], [3, 1], [1, 3], [2, "same", 2], [3, "same", 1], [1, "new", 3], [2, "new", 2], [1, "same", 1, "new", 2]]
     combos = [(1, 1), (2, 1), (2, 2), (3, 2), (2, 3)] if tier == "quick" else [(f, m) for f in (1, 2, 3) for m in (1, 2, 3)]
@@ -78,7 +80,55 @@ def run_job(job):
         return ob.result()
     if job["kind"] == "f0":
         return run_f0(job, ob)
+    if job["kind"] == "nonfinite":
+        return run_nonfinite(job, ob)
     return run_cadence(job, ob)
+
+
+def nonfinite_problem(seed):
+    """an absorbing infeasible state with reward -inf: its value is -inf from the first sweep on (concrete leg: the
+    symbolic legs range over real-valued states only)"""
+    from ..tab import Tab
+    T, R, P, V0 = kit.rand_tables(3, 2, 1, seed)
+    T = np.array(T)
+    R = np.array(R, dtype=float)
+    T[0] = 0
+    R[0] = -np.inf
+    return Tab(3, 2, 1, T=T, R=R, P=P)
+
+
+def run_nonfinite(job, ob):
+    name = job["solver"]
+    base = tempfile.mkdtemp(prefix="mdpv-nonfinite-")
+    try:
+        for (f, m, async_, N) in ((1, 2, True, 3), (2, 2, False, 5)):
+            d = os.path.join(base, f"ck{f}{m}")
+            s = ckkit.make_solver(name, nonfinite_problem(job.get("seed", 0)), ckdir=d, f=f, m=m, async_=async_, epsilon=1e-9)
+            held = {}
+            orig = s.save
+
+            def save(step, s=s, held=held, orig=orig):
+                held[step] = (int(s.iteration), np.array(s.values))
+                return orig(step)
+            s.save = save
+            s.solve(N)
+            s.checkpoint_manager.wait_until_finished()
+            cex = lambda mm, f=f, m=m, async_=async_, N=N: dict(kind="nonfinite", solver=name, f=f, m=m, async_=async_, N=N)
+            end = int(s.iteration)
+            want = sorted({i for i in range(1, end + 1) if i % f == 0} | {end})[-m:]
+            got = sorted(int(p) for p in os.listdir(d) if p.isdigit()) if os.path.isdir(d) else []
+            ob.prove(f"nonfinite-values-present[f{f}]", [], bool(np.isinf(np.asarray(s.values)).any() or np.isnan(np.asarray(s.values)).any()), cex=cex,
+                     kind="scenario reaches a state with non-finite values (reachability)")
+            ob.prove(f"retained==m-most-recent[nonfinite,f{f},m{m}]", [], got == want, cex=cex,
+                     kind="retained steps == the m most recent of {multiples of f} U {last iteration} (non-finite values)")
+            for step in got:
+                chk = ckkit.make_solver(name, nonfinite_problem(job.get("seed", 0)))
+                chk.load_checkpoint(d, step=step)
+                ok = chk.iteration == step and step in held and np.array_equal(np.asarray(chk.values), held[step][1], equal_nan=True)
+                ob.prove(f"step-content[nonfinite,f{f},step{step}]", [], bool(ok), cex=cex, kind="retained step contains the solver state of that iteration (non-finite values)")
+    finally:
+        shutil.rmtree(base, ignore_errors=True)
+    return ob.result()
 
 
 def run_f0(job, ob):
@@ -229,6 +279,11 @@ def replay(data):
             return ok, "no exception with the real Orbax; " + msg
         except Exception as ex:
             return True, f"real run raised {type(ex).__name__}: {ex}"
+    if job["kind"] == "nonfinite":
+        ob2 = Obligations(job)
+        run_nonfinite(job, ob2)
+        bad = [v["obligation"] for v in ob2.violations]
+        return bool(bad), f"{job['name']}: failing {bad}" if bad else f"{job['name']}: as documented"
     if job["kind"] == "f0":
         base = tempfile.mkdtemp(prefix="mdpv-f0-")
         try:
@@ -238,6 +293,14 @@ def replay(data):
             return os.path.exists(d) or s.checkpoint_manager is not None, f"f=0: directory exists={os.path.exists(d)} manager={s.checkpoint_manager}"
         finally:
             shutil.rmtree(base, ignore_errors=True)
+    if job.get("async_") and not data.get("_slow"):
+        # two schedules: writes as fast as the disk allows, and writes that are still in flight when the next sweeps end
+        ok1, msg1 = replay(dict(data, _slow="fast"))
+        if ok1:
+            return ok1, msg1
+        with ckkit.slow_commits():
+            ok2, msg2 = replay(dict(data, _slow="slow"))
+        return ok2, (msg2 + " [schedule: background commits delayed by 0.25 s]" if ok2 else msg1)
     name, f, m = job["solver"], job["f"], job["m"]
     # convergence pattern of the counterexample path: a call that ended before its limit ended by convergence
     limits = [x for x in job["seq"] if isinstance(x, int)]
